@@ -14,6 +14,7 @@ mod e_handshake;
 mod e_renew;
 mod e_locks;
 mod e_services;
+mod e_lockconfirm;
 
 use serde_json::Value;
 use std::io::{BufRead, BufReader, BufWriter, Write};
@@ -52,6 +53,7 @@ fn run_case(engine: &str, case: &Value, out: &mut Obs) {
         "renew" => e_renew::run_case(case, out),
         "locks" => e_locks::run_case(case, out),
         "services" => e_services::run_case(case, out),
+        "lockconfirm" => e_lockconfirm::run_case(case, out),
         _ => {
             eprintln!("unknown engine {}", engine);
             std::process::exit(2);
